@@ -24,7 +24,18 @@ def thrower_key(th):
     m = re.search(r"(\w+)$", name)
     nm = m.group(1) if m else name
     nm = re.sub(r"_t$", "", nm)
-    return "%s:%s" % (kind, nm)
+    return "%s:%s" % (kind, primitive_family(nm))
+
+
+def primitive_family(nm):
+    """the element primitive's family, independent of how it is spelled at the call site: the counted / ranged forms (`copy_n` / `copy`), the allocator-aware
+    and plain forms (`alloc_uninitialized_fill_n` / `uninitialized_fill_n`) and the `adl_` dispatcher prefix denote the same step of an operation.  A known
+    finding is keyed by (rule, operation, kind of step, family), so re-spelling the step does not turn it into a new report"""
+    nm = re.sub(r"^adl_", "", nm)
+    nm = re.sub(r"^alloc_", "", nm)
+    nm = re.sub(r"^uninitialized_", "", nm)
+    nm = re.sub(r"_n$", "", nm)
+    return nm
 
 
 def analyse(mod, rep, select=None):
@@ -111,7 +122,7 @@ def _ptype_of(params, k):
 def _flat_guard_ok(D, k, true_conds):
     """does the path establish that the memory order of view parameter k is its canonical element order?  Accepted idioms (each read off the atom's
     term, for that parameter): D = 1 and stride == 1 (or is_compact(), which for one dimension says the same); any D: the view's layout equals the
-    canonical layout built from its own extensions (layout == layout_type(extensions()))."""
+    canonical layout built from its own extensions (layout == layout_type(extensions()), or strides() == layout_type(extensions()).strides())."""
     me = "('param', %d)" % k
     for c in true_conds:
         if me not in c:
@@ -119,8 +130,11 @@ def _flat_guard_ok(D, k, true_conds):
         others = set(re.findall(r"\('param', (\d+)\)", c)) - {str(k)}
         if D == 1 and not others and ((c.startswith("('cmp', 'eq'") and c.rstrip(")").endswith("('c', 1")) or "is_compact() const" in c):
             return True
-        if not others and "operator==(layout_t const&, layout_t const&)" in c and "layout_t::layout_t(extensions_t const&)" in c and "extensions() const" in c:
+        canon = "layout_t::layout_t(extensions_t const&)" in c and "extensions() const" in c       # the canonical layout of this view's own extensions
+        if not others and canon and "operator==(layout_t const&, layout_t const&)" in c:
             return True
+        if not others and canon and "tuple::operator==(tuple const&) const" in c and c.count("layout_t::strides() const") == 2:
+            return True       # equal strides for equal extents: the same positions relative to the base (offsets only carry the index bases)
     return False
 
 
